@@ -99,78 +99,96 @@ def run_case(case):
                     la2 = b.len_available(chunks[0])
                     if la2 != cap - len(chunks[0]):
                         res.fail("C18/len_available", "len_available(chunk of %d) = %r, expected %d" % (len(chunks[0]), la2, cap - len(chunks[0])))
-                n_trace = len(chip.trace)
-                raised = None
-                try:
-                    if form == "single":
-                        t, h = op[2][0] if op[2] else (0xFF, "")
-                        b.advertise(bytes.fromhex(h), t)
-                        chunks = [ble.ad(t, bytes.fromhex(h))] if h else []
-                        total = sum(len(c) for c in chunks)
-                    elif form == "list":
-                        b.advertise([bytes(c) for c in chunks])
-                    else:
-                        b.advertise(tuple(bytearray(c) for c in chunks))
-                except ValueError as e:
-                    raised = e
-                loads = [d for (_t, c, d) in chip.trace[n_trace:] if c in (0xA0, 0xB0)]
-                fits = total <= cap
-                if abs(total - cap) <= 1:
-                    res.label("capacity-boundary")
-                if not fits:
-                    if raised is None:
-                        res.fail("C18/oversize-accepted", "%d bytes of data with %d free were accepted" % (total, cap))
-                    if loads:
-                        res.fail("C18/oversize-loaded", "a packet was loaded although advertise() must refuse it")
-                    continue
-                if raised is not None:
-                    res.fail("C18/fitting-packet-refused", "%d bytes of data with %d free raised %r" % (total, cap, raised))
-                    continue
-                if len(loads) != 1:
-                    res.fail("C18/payload-loads", "%d W_TX_PAYLOAD commands for one advertise()" % len(loads))
-                    continue
-                if name is not None or show_pa or abs(total - cap) <= 1 or after_switch:
-                    res.nontrivial = True
-                rfch = chip.reg[5]
-                if rfch not in ble.RF_CH_TO_BLE:
-                    res.fail("C18/non-ble-frequency", "advertising on RF_CH %d" % rfch)
-                    continue
-                ch = ble.RF_CH_TO_BLE[rfch]
-                p = ble.parse_radio_payload(loads[0], ch)
-                sw = "/after-channel-assignment" if after_switch else ""
-                if "error" in p or not p["crc_ok"] or p["header"] != 0x42:
-                    # is it well-formed for another advertising channel?  (diagnosis only)
-                    other = [c for c in (37, 38, 39) if c != ch and ble.parse_radio_payload(loads[0], c).get("crc_ok")]
-                    if other:
-                        res.fail("C18/whitened-for-another-channel" + sw, "radio tuned to RF_CH %d (BLE %d) but the packet is "
-                                 "whitened for BLE channel %d" % (rfch, ch, other[0]))
-                    elif "error" in p:
-                        res.fail("C18/malformed-pdu", p["error"])
-                    elif p["header"] != 0x42:
-                        res.fail("C18/pdu-header", "PDU header 0x%02X, expected 0x42 (ADV_NONCONN_IND, TxAdd)" % p["header"])
-                    else:
-                        res.fail("C18/crc", "CRC-24 does not match the PDU")
-                    continue
-                exp_ads = [(0x01, b"\x05")]
-                if show_pa:
-                    exp_ads.append((0x0A, struct.pack("b", pa)))
-                if name is not None:
-                    exp_ads.append((0x08, name))
-                exp_raw = b"".join(ble.ad(t, d) for t, d in exp_ads) + b"".join(chunks)
-                if p["length_byte"] != 6 + len(exp_raw):
-                    res.fail("C18/length-byte", "PDU length byte %d, expected %d" % (p["length_byte"], 6 + len(exp_raw)))
-                if p["mac"] != mac:
-                    res.fail("C18/mac", "AdvA %s, configured %s" % (p["mac"].hex(), mac.hex()))
-                if p["raw_ad"] != exp_raw:
-                    got_fixed = p["raw_ad"][:len(exp_raw) - len(b"".join(chunks))]
-                    if got_fixed != exp_raw[:len(got_fixed)]:
-                        res.fail("C18/fixed-fields", "flags/PA/name fields %s, expected %s" % (
-                            got_fixed.hex(), exp_raw[:len(exp_raw) - len(b"".join(chunks))].hex()))
-                    else:
-                        res.fail("C18/chunks-not-verbatim", "data structures %s, caller gave %s" % (
-                            p["raw_ad"][len(got_fixed):].hex(), b"".join(chunks).hex()))
-                if p["total"] > 32:
-                    res.fail("C18/longer-than-32", "%d bytes" % p["total"])
+                # the caller's container is built once and, like the documentation's example loop, may be handed to
+                # advertise() several times with a channel hop in between; it must come back unchanged
+                if form == "single":
+                    t, h = op[2][0] if op[2] else (0xFF, "")
+                    chunks = [ble.ad(t, bytes.fromhex(h))] if h else []
+                    total = sum(len(c) for c in chunks)
+                    cont = bytes.fromhex(h)
+                elif form == "list":
+                    cont = [bytes(c) for c in chunks]
+                elif form == "list_ba":
+                    cont = [bytearray(c) for c in chunks]
+                else:
+                    cont = tuple(bytearray(c) for c in chunks)
+                reps = op[3] if len(op) > 3 else 1
+                for rep in range(reps):
+                    if rep:
+                        b.hop_channel()
+                        after_switch = False
+                        res.label("same-container-advertised-again")
+                    n_trace = len(chip.trace)
+                    raised = None
+                    try:
+                        if form == "single":
+                            b.advertise(cont, t)
+                        else:
+                            b.advertise(cont)
+                    except ValueError as e:
+                        raised = e
+                    loads = [d for (_t, c, d) in chip.trace[n_trace:] if c in (0xA0, 0xB0)]
+                    if form != "single" and [bytes(c) for c in cont] != [bytes(c) for c in chunks]:
+                        # not a clause of C18 by itself; what the NEXT advertise() of this container emits is judged
+                        # against the chunks as the caller built them
+                        res.label("library-changed-callers-container")
+                    fits = total <= cap
+                    if abs(total - cap) <= 1:
+                        res.label("capacity-boundary")
+                    if not fits:
+                        if raised is None:
+                            res.fail("C18/oversize-accepted", "%d bytes of data with %d free were accepted" % (total, cap))
+                        if loads:
+                            res.fail("C18/oversize-loaded", "a packet was loaded although advertise() must refuse it")
+                        continue
+                    if raised is not None:
+                        res.fail("C18/fitting-packet-refused", "%d bytes of data with %d free raised %r" % (total, cap, raised))
+                        continue
+                    if len(loads) != 1:
+                        res.fail("C18/payload-loads", "%d W_TX_PAYLOAD commands for one advertise()" % len(loads))
+                        continue
+                    if name is not None or show_pa or abs(total - cap) <= 1 or after_switch:
+                        res.nontrivial = True
+                    rfch = chip.reg[5]
+                    if rfch not in ble.RF_CH_TO_BLE:
+                        res.fail("C18/non-ble-frequency", "advertising on RF_CH %d" % rfch)
+                        continue
+                    ch = ble.RF_CH_TO_BLE[rfch]
+                    p = ble.parse_radio_payload(loads[0], ch)
+                    sw = "/after-channel-assignment" if after_switch else ""
+                    if "error" in p or not p["crc_ok"] or p["header"] != 0x42:
+                        # is it well-formed for another advertising channel?  (diagnosis only)
+                        other = [c for c in (37, 38, 39) if c != ch and ble.parse_radio_payload(loads[0], c).get("crc_ok")]
+                        if other:
+                            res.fail("C18/whitened-for-another-channel" + sw, "radio tuned to RF_CH %d (BLE %d) but the packet is "
+                                     "whitened for BLE channel %d" % (rfch, ch, other[0]))
+                        elif "error" in p:
+                            res.fail("C18/malformed-pdu", p["error"])
+                        elif p["header"] != 0x42:
+                            res.fail("C18/pdu-header", "PDU header 0x%02X, expected 0x42 (ADV_NONCONN_IND, TxAdd)" % p["header"])
+                        else:
+                            res.fail("C18/crc", "CRC-24 does not match the PDU")
+                        continue
+                    exp_ads = [(0x01, b"\x05")]
+                    if show_pa:
+                        exp_ads.append((0x0A, struct.pack("b", pa)))
+                    if name is not None:
+                        exp_ads.append((0x08, name))
+                    exp_raw = b"".join(ble.ad(t, d) for t, d in exp_ads) + b"".join(chunks)
+                    if p["length_byte"] != 6 + len(exp_raw):
+                        res.fail("C18/length-byte", "PDU length byte %d, expected %d" % (p["length_byte"], 6 + len(exp_raw)))
+                    if p["mac"] != mac:
+                        res.fail("C18/mac", "AdvA %s, configured %s" % (p["mac"].hex(), mac.hex()))
+                    if p["raw_ad"] != exp_raw:
+                        got_fixed = p["raw_ad"][:len(exp_raw) - len(b"".join(chunks))]
+                        if got_fixed != exp_raw[:len(got_fixed)]:
+                            res.fail("C18/fixed-fields", "flags/PA/name fields %s, expected %s" % (
+                                got_fixed.hex(), exp_raw[:len(exp_raw) - len(b"".join(chunks))].hex()))
+                        else:
+                            res.fail("C18/chunks-not-verbatim", "data structures %s, caller gave %s" % (
+                                p["raw_ad"][len(got_fixed):].hex(), b"".join(chunks).hex()))
+                    if p["total"] > 32:
+                        res.fail("C18/longer-than-32", "%d bytes" % p["total"])
         except SimHorizon:
             res.fail("C18/call-does-not-return", "%r did not return" % (op[:2],))
             break
@@ -217,7 +235,7 @@ def _strategy():
             else:
                 cap = 18 - (0 if name_len is None else name_len + 2) - (3 if show else 0)
                 target = max(0, cap + draw(st.sampled_from([0, 0, -1, 1, -2, 2, -cap, -5])))
-                form = draw(st.sampled_from(["single", "list", "tuple"]))
+                form = draw(st.sampled_from(["single", "list", "tuple", "list_ba"]))
                 chunks = []
                 if form == "single":
                     n = max(0, target - 2)
@@ -228,13 +246,42 @@ def _strategy():
                         n = draw(st.integers(0, left - 2)) if len(chunks) < 3 else left - 2
                         chunks.append([draw(st.sampled_from([0xFF, 0x16, 0x02, 0x19])), draw(st.binary(min_size=n, max_size=n)).hex()])
                         left -= n + 2
-                ops.append(["adv", form, chunks])
+                ops.append(["adv", form, chunks, draw(st.sampled_from([1, 1, 1, 2, 3]))])
         return {"mac": mac, "ops": ops}
 
     return case()
 
 
+def _enum(names, offsets):
+    """name x show_pa_level x pa_level x how the channel was chosen x container form x fill relative to the capacity x
+    how often the same container is advertised"""
+    def gen():
+        import itertools
+        for nm, show, pa, tune, form, off, reps in itertools.product(
+                names, (False, True), (-18, 0), ("hop", "channel", "ctx"), ("single", "list", "tuple", "list_ba"), offsets, (1, 3)):
+            nlen = None if nm is None else len(nm.encode())
+            if nlen is not None and nlen + 2 + (3 if show else 0) > 18:
+                continue
+            cap = 18 - (0 if nlen is None else nlen + 2) - (3 if show else 0)
+            target = cap + off
+            if target < 2:
+                continue
+            if form == "single" or target < 5:
+                chunks = [[0xFF, bytes(range(0x30, 0x30 + target - 2)).hex()]]
+            else:
+                a = (target - 4) // 2
+                chunks = [[0x16, bytes(range(0x41, 0x41 + a)).hex()], [0xFF, bytes(range(0x61, 0x61 + target - 4 - a)).hex()]]
+            pre = {"hop": [["hop"]], "channel": [["channel", 26]], "ctx": [["channel", 80], ["ctx"]]}[tune]
+            # a with-block exit resets name and show_pa_level, so they are configured after it
+            ops = pre + [["show_pa", show], ["name", None if nm is None else {"s": nm}], ["pa_level", pa], ["adv", form, chunks, reps]]
+            yield {"mac": "c0ffee0102e3", "ops": ops}
+    return gen
+
+
 def parts(tier):
     if tier == "quick":
-        return [Part("generated", "gen", _strategy, n=4000)]
-    return [Part("generated", "gen", _strategy, n=200000)]
+        return [Part("enum-boundary-fills", "enum", _enum((None, "", "a", "nRF24", "elevenchars"), (-1, 0, 1)), exhaustive=True),
+                Part("generated", "gen", _strategy, n=4000)]
+    return [Part("enum-boundary-fills", "enum", _enum((None, "", "a", "nRF24", "elevenchars", "fourteen_chars", "sixteen_chars_xx"),
+                                                       (-3, -2, -1, 0, 1, 2)), exhaustive=True),
+            Part("generated", "gen", _strategy, n=200000)]
